@@ -211,6 +211,47 @@ def run_unit(unit, rec):
                 rec.stat_max("max_excess_%s" % sname, val - opt)
             else:
                 rec.outcome("stress/%s" % ("ok" if val <= opt + cap_tol else "excess"))
+        # the same fit for calls with exactly as many targets as receptors / as sources (sizes at which a weight vector or a bound
+        # vector could be mistaken for a per-sample quantity); out-of-gamut targets first, their optimum depends on the weights
+        if api == "fit" and regime_sys:
+            opts = [O.box_lsq_bounds(Abar, t, lo, hi, w=w, c0=c0) for _, t in T]
+            order = sorted(range(len(T)), key=lambda i: (-(opts[i][0] > 1e-6 * ext), i))
+            order = [i for i in order if np.max(np.abs(T[i][1])) <= 100.0]
+            for cnt in sorted({m, n}):
+                sel = order[:cnt]
+                if len(sel) < cnt:
+                    continue
+                rec.path()
+                rec.trans()
+                try:
+                    Xc, _ = est.fit(P[sel], **okw)
+                    Xc = np.asarray(Xc, dtype=float)
+                except Exception as e:  # noqa
+                    _v(rec, "a", dict(base, api="fit/%d-targets" % cnt, target="batch", **exc_sig(e)), "fit of %d targets raised %r" % (cnt, e), dict(api="fit", count=cnt), script=_script(spec, P[sel], okw))
+                    continue
+                for row, i in enumerate(sel):
+                    val = float(np.linalg.norm(w * (Abar @ Xc[row] + c0 - T[i][1])))
+                    okc = val <= opts[i][0] + cap_tol
+                    rec.outcome("count=%s/%s" % ("receptors" if cnt == m else "sources", "optimal" if okc else "suboptimal"))
+                    if not okc:
+                        _v(rec, "c", dict(base, api="fit", target=T[i][0], status="count=%d" % cnt), "in a call with exactly %d targets: weighted residual %.6g exceeds the global optimum %.6g by more than %.0e" % (cnt, val, opts[i][0], cap_tol),
+                           dict(api="fit", count=cnt, target=i), observed=dict(X=Xc[row], residual=val), expected=dict(X=opts[i][1], residual=opts[i][0], target=T[i][1]), script=_script(spec, P[sel], okw))
+                        break
+        if api == "fit":
+            # integer-typed targets (pixel counts): same answer as for the same numbers as floats
+            rec.path()
+            rec.trans(2)
+            try:
+                Ti = np.unique(np.round(P[np.max(np.abs(P), axis=1) <= 100.0]).astype(np.int64), axis=0)[:6]
+                Xi, Bi = est.fit(Ti, **okw)
+                Xf, Bf = est.fit(Ti.astype(float), **okw)
+                same = np.shape(Xi) == np.shape(Xf) and np.max(np.abs(np.asarray(Xi, dtype=float) - np.asarray(Xf, dtype=float))) <= 1e-9 and np.max(np.abs(np.asarray(Bi, dtype=float) - np.asarray(Bf, dtype=float))) <= 1e-9 * (1 + ext)
+                rec.outcome("int-typed/%s" % ("same" if same else "differs"))
+                if not same:
+                    _v(rec, "c", dict(base, api="fit", target="int-typed", status="?"), "integer-typed targets are fitted differently from the same values as floats", dict(api="fit", dtype="int"),
+                       observed=dict(X=np.asarray(Xi)[:2]), expected=dict(X=np.asarray(Xf)[:2], targets=Ti[:2]), script=_script(spec, Ti, okw))
+            except Exception as e:  # noqa
+                _v(rec, "a", dict(base, api="fit", target="int-typed", **exc_sig(e)), "fit of integer-typed targets raised %r" % (e,), dict(api="fit", dtype="int"))
         rec.sample(dict(system=names, api=api, n_targets=len(T), example_target=T[0][1], example_X=X[0]), cap=1)
 
     # per-sample weights through register_targets + fit()
